@@ -13,6 +13,7 @@
 //! flags: comma list of reload,styles,late,fees,reorg | all | none; plus `rtquirk` (never implied by `all`): do
 //!        not steer around two artefacts of the test-only monitor round-trip assertion (see `run_scenario`);
 //!        with it some scenarios end in `"panic":"... assertion failed: new_monitor == *monitor"`.
+//!        `deepreorg` (never implied by `all` either): see `reorg.fork_rel` below.
 //! stdout: one line `R {json}` per scenario (TestLogger floods stdout with everything else).
 //! stderr: histogram at the end.
 //!
@@ -83,7 +84,11 @@
 //!      `k`: blocks connected after the block that confirmed the target before the reorg starts (ordinary
 //!         driver steps; steps of several empty blocks are split so that the count is exact);
 //!      `fork_rel`: the fork point (last block kept) is at `tracked_conf_height` + fork_rel, in -1..=1,
-//!         lowered to k-1 where needed (`fork_rel_drawn` = the draw);
+//!         lowered to k-1 where needed (`fork_rel_drawn` = the draw). A block with ANTI_REORG_DELAY
+//!         confirmations is final for LDK (what matured there is never taken back), so k = 5 with
+//!         fork_rel = -1 becomes fork_rel = 0 (`depth_capped`): at most ANTI_REORG_DELAY - 1 blocks are
+//!         disconnected. Flag `deepreorg` (never implied by `all`) lifts that cap; then the debug
+//!         assertions of `get_claimable_balances` can fire, e.g. with flags all,deepreorg seed 23 k 99;
 //!      `api`: how B hears of the disconnect: listen_each (`Listen::blocks_disconnected` once per block,
 //!         ConnectStyle FullBlockViaListen) | listen_once (one call with the fork point,
 //!         FullBlockDisconnectionsSkippingViaListen) | confirm_best_block (`best_block_updated` with each
@@ -362,11 +367,13 @@ struct Flags {
 	reorg: bool,
 	/// NOT part of `all`: do not steer around the monitor round-trip quirk (see `run_scenario`)
 	rtquirk: bool,
+	/// NOT part of `all`: let a reorg disconnect a block that has ANTI_REORG_DELAY confirmations
+	deepreorg: bool,
 }
 impl Flags {
 	fn parse(s: &str) -> Flags {
 		let mut f =
-			Flags { raw: s.to_string(), reload: false, styles: false, late: false, fees: false, reorg: false, rtquirk: false };
+			Flags { raw: s.to_string(), reload: false, styles: false, late: false, fees: false, reorg: false, rtquirk: false, deepreorg: false };
 		for t in s.split(',') {
 			match t.trim() {
 				"all" => {
@@ -382,6 +389,7 @@ impl Flags {
 				"late" => f.late = true,
 				"fees" => f.fees = true,
 				"rtquirk" => f.rtquirk = true,
+				"deepreorg" => f.deepreorg = true,
 				_ => {},
 			}
 		}
@@ -969,6 +977,8 @@ struct Chain {
 	htlcs: Vec<(bool, u32, u32)>,
 	pinnable: u32,
 	reorg: Option<Reorg>,
+	/// flag `deepreorg`
+	deep_reorg: bool,
 }
 
 /// The chain reorganisation of a scenario: plan, progress and what was observed.
@@ -984,6 +994,7 @@ struct Reorg {
 	started: bool,
 	done: bool,
 	fork_rel: i32,
+	depth_capped: bool,
 	tip_before: u32,
 	fork_h: u32,
 	shift: u32,
@@ -1000,12 +1011,13 @@ impl Reorg {
 		let nums = |v: &Vec<u32>| v.iter().map(|x| x.to_string()).collect::<Vec<_>>().join(",");
 		let opt = |on: bool, x: String| if on { x } else { "null".to_string() };
 		format!(
-			"{{\"target\":\"{}\",\"target_drawn\":\"{}\",\"k\":{},\"fork_rel\":{},\"fork_rel_drawn\":{},\"api\":\"{}\",\"regrow\":\"{}\",\"done\":{},\"tracked_txid\":{},\"tracked_conf_height\":{},\"tip_before\":{},\"fork_point_height\":{},\"shift\":{},\"disconnected_heights\":[{}],\"disconnected_txids\":{},\"replacement_heights\":[{}],\"style_before\":{},\"disconnect_style\":{},\"regrow_style\":{}}}",
+			"{{\"target\":\"{}\",\"target_drawn\":\"{}\",\"k\":{},\"fork_rel\":{},\"fork_rel_drawn\":{},\"depth_capped\":{},\"api\":\"{}\",\"regrow\":\"{}\",\"done\":{},\"tracked_txid\":{},\"tracked_conf_height\":{},\"tip_before\":{},\"fork_point_height\":{},\"shift\":{},\"disconnected_heights\":[{}],\"disconnected_txids\":{},\"replacement_heights\":[{}],\"style_before\":{},\"disconnect_style\":{},\"regrow_style\":{}}}",
 			self.target,
 			self.target_drawn,
 			self.k,
 			opt(self.started, self.fork_rel.to_string()),
 			self.fork_rel_drawn,
+			self.depth_capped,
 			self.api,
 			self.regrow,
 			self.done,
@@ -1644,6 +1656,11 @@ fn do_reorg(w: &mut World, chain: &mut Chain, rec: &Rc<RefCell<Rec>>) {
 	r.tip_before = tip;
 	// the fork point must be below the tip
 	r.fork_rel = r.fork_rel_drawn.min((tip - conf_h) as i32 - 1);
+	// and a block with ANTI_REORG_DELAY confirmations is final for LDK: it stays
+	if !chain.deep_reorg && tip - (conf_h as i64 + r.fork_rel as i64) as u32 >= ANTI_REORG_DELAY {
+		r.fork_rel += 1;
+		r.depth_capped = true;
+	}
 	r.fork_h = (conf_h as i64 + r.fork_rel as i64) as u32;
 	let count = tip - r.fork_h;
 	let disc: Vec<(u32, Vec<Transaction>)> = {
@@ -2267,6 +2284,7 @@ fn run_scenario(seed: u64, k: u64, flags: &Flags, rec: &Rc<RefCell<Rec>>) {
 				started: false,
 				done: false,
 				fork_rel: 0,
+				depth_capped: false,
 				tip_before: 0,
 				fork_h: 0,
 				shift: 0,
@@ -2365,6 +2383,7 @@ fn run_scenario(seed: u64, k: u64, flags: &Flags, rec: &Rc<RefCell<Rec>>) {
 		htlcs: cheated_htlcs.clone(),
 		pinnable: 0,
 		reorg: reorg_plan,
+		deep_reorg: flags.deepreorg,
 	};
 	rec.borrow_mut().reorg_json = chain.reorg.as_ref().map(|r| r.json());
 	// the funding transaction confirmed long ago
